@@ -132,10 +132,10 @@ class C07(ServerPlugin):
         for _ in range(n):
             proto = rng.choice(["h1", "h2", "auto"])
             x = rng.random()
-            tr = "duplex" if x < 0.8 else "dtls" if x < 0.93 else "tcp" if x < 0.97 else "unix"
+            tr = "duplex" if x < 0.84 else "dtls" if x < 0.96 else "tcp" if x < 0.975 else "unix"
             nconn = rng.choice([0, 1, 1, 2, 2, 3, 3, 4, 5, 6, 8])
             if tr in ("tcp", "unix"):
-                nconn = min(nconn, 3)
+                nconn = min(nconn, 2)
             cases.append(self.one(rng, proto, tr, nconn, signal=rng.random() < 0.93))
         return cases, {"rule": f"{len(cases) - n} systematic cases (every standing of a connection at the signal x settled or not x "
                                f"idle neighbour; accept-queue shapes) + {n} random (seeded) schedules over 0..8 connections",
